@@ -315,27 +315,83 @@ theorem filterAllow_spec (fields : List K) (doc : List (Fld K V)) (htags : (doc.
     have := hy'.2
     simp [hk] at this
 
-/-! ## the pipe header (`parser/seqql_pipes.go: parsePipeFields`, `parseFieldList`) on lexer tokens -/
+/-! ## the pipe header (`parser/seqql_pipes.go: parsePipeFields`, `parseFieldList`;
+`parser/seqql_filter.go: parseCompositeToken`, `isCompositeToken`) on lexer tokens -/
 
-/-- a lexer token: its text and whether it was quoted -/
+/-- a lexer token: its text, whether it was quoted (`TokenQuoted`) and whether white space (any `unicode.IsSpace`
+rune) or a comment was skipped right before it (`SpaceSkipped`).  The end of the query is the end of the list. -/
 structure Tok where
   text : List Char
   quoted : Bool
+  space : Bool
 deriving DecidableEq, Repr
 
+/-- ASCII lower-casing (kept for the statements about ASCII spellings) -/
 def asciiLower (s : List Char) : List Char := s.map fun c => if 'A' ≤ c ∧ c ≤ 'Z' then Char.ofNat (c.toNat + 32) else c
 
-/-- `lexer.IsKeyword`: never a quoted token, otherwise case-insensitive (`strings.EqualFold`; ASCII keywords) -/
-def isKeyword (t : Tok) (kw : List Char) : Bool := !t.quoted && asciiLower t.text == kw
+/-- Unicode simple case folding restricted to what can meet an ASCII keyword letter: ASCII upper case, and the two
+non-ASCII members of the orbits of `s` and `k` - LATIN SMALL LETTER LONG S (U+017F) and KELVIN SIGN (U+212A) -/
+def foldChar (c : Char) : Char :=
+  if 'A' ≤ c ∧ c ≤ 'Z' then Char.ofNat (c.toNat + 32)
+  else if c.toNat = 0x17F then 's'
+  else if c.toNat = 0x212A then 'k'
+  else c
 
-/-- `parseFieldList`: names until the next `|` or the end, an optional comma after each name, no trailing comma,
-not empty.  `afterName` = the previous token was a name, `tr` = a comma was just consumed, `acc` = names (reversed). -/
-def fieldListGo : List Tok → Bool → Bool → List (List Char) → Option (List (List Char) × List Tok)
-  | [], _, tr, acc => if tr ∨ acc.isEmpty then none else some (acc.reverse, [])
-  | t :: rest, afterName, tr, acc =>
-    if isKeyword t ['|'] then (if tr ∨ acc.isEmpty then none else some (acc.reverse, t :: rest))
-    else if isKeyword t [','] then (if afterName then fieldListGo rest false true acc else none)
-    else fieldListGo rest true false (t.text :: acc)
+def foldText (s : List Char) : List Char := s.map foldChar
+
+/-- `lexer.IsKeyword(kw)` for a lower-case ASCII keyword: never a quoted token, otherwise `strings.EqualFold` -/
+def isKeyword (t : Tok) (kw : List Char) : Bool := !t.quoted && foldText t.text == kw
+
+/-- `isTokenRune` (letters, digits, `_`, `.`); non-ASCII characters are taken as letters - the generators use
+non-ASCII letters only (non-ASCII symbols such as `€` are outside the model) -/
+def isTokenChar (c : Char) : Bool := c.isAlphanum || c == '_' || c == '.' || c.toNat ≥ 128
+
+def utf8Len (s : List Char) : Nat := (s.map Char.utf8Size).sum
+
+/-- `isCompositeToken`: not the end of the query; an empty (quoted) token, a quoted token, a token with more than one
+byte after its first rune, or a single letter / digit / `_` / `.` / `-` / `*` -/
+def isComposite (t : Tok) : Bool :=
+  match t.text with
+  | [] => t.quoted                       -- unquoted empty token = end of query
+  | c :: rest => decide (utf8Len rest > 1) || t.quoted || isTokenChar c || c == '-' || c == '*'
+
+/-- the tokens glued to a first composite token: those that follow WITHOUT white space and are composite -/
+def joinComposite (acc : List Char) : List Tok → List Char × List Tok
+  | [] => (acc, [])
+  | t :: rest => if !t.space && isComposite t then joinComposite (acc ++ t.text) rest else (acc, t :: rest)
+
+/-- `parseCompositeToken`: `none` = "unexpected end of query" / "unexpected symbol" -/
+def compositeToken : List Tok → Option (List Char × List Tok)
+  | [] => none
+  | t :: rest => if isComposite t then some (joinComposite t.text rest) else none
+
+theorem joinComposite_length (acc : List Char) (ts : List Tok) : (joinComposite acc ts).2.length ≤ ts.length := by
+  induction ts generalizing acc with
+  | nil => simp [joinComposite]
+  | cons t rest ih =>
+    unfold joinComposite
+    split
+    · exact Nat.le_succ_of_le (ih _)
+    · exact Nat.le_refl _
+
+/-- `parseFieldList`: composite names until the next `|` or the end, an optional comma after each name, no trailing
+comma, not empty.  `fuel` >= number of tokens; `tr` = a comma was just consumed; `acc` = names so far (reversed). -/
+def fieldListGo : Nat → List Tok → Bool → List (List Char) → Option (List (List Char) × List Tok)
+  | 0, _, _, _ => none
+  | fuel + 1, ts, tr, acc =>
+    match ts with
+    | [] => if tr ∨ acc.isEmpty then none else some (acc.reverse, [])
+    | t :: rest =>
+      if isKeyword t ['|'] then (if tr ∨ acc.isEmpty then none else some (acc.reverse, t :: rest))
+      else
+        match compositeToken (t :: rest) with
+        | none => none
+        | some (name, after) =>
+          match after with
+          | c :: after' =>
+            if isKeyword c [','] then fieldListGo fuel after' true (name :: acc)
+            else fieldListGo fuel after false (name :: acc)
+          | [] => fieldListGo fuel [] false (name :: acc)
 
 /-- `parsePipeFields` on the tokens after a `|`: `(except, names, remaining tokens)`; `none` = parse error -/
 def parsePipeFields (ts : List Tok) : Option (Bool × List (List Char) × List Tok) :=
@@ -345,19 +401,44 @@ def parsePipeFields (ts : List Tok) : Option (Bool × List (List Char) × List T
     if isKeyword f "fields".toList then
       match rest with
       | e :: rest' =>
-        if isKeyword e "except".toList then (fieldListGo rest' false false []).map fun r => (true, r.1, r.2)
-        else (fieldListGo rest false false []).map fun r => (false, r.1, r.2)
+        if isKeyword e "except".toList then (fieldListGo (rest'.length + 1) rest' false []).map fun r => (true, r.1, r.2)
+        else (fieldListGo (rest.length + 1) rest false []).map fun r => (false, r.1, r.2)
       | [] => none
     else none
 
 theorem isKeyword_case (t t' : Tok) (kw : List Char) (hq : t.quoted = t'.quoted)
-    (hl : asciiLower t.text = asciiLower t'.text) : isKeyword t kw = isKeyword t' kw := by
+    (hl : foldText t.text = foldText t'.text) : isKeyword t kw = isKeyword t' kw := by
   unfold isKeyword; rw [hq, hl]
 
-/-- the parse depends on the two keyword tokens only through their quoting and their lower-cased text -/
+/-- ASCII case changes do not change the folded text -/
+theorem foldText_asciiLower (s : List Char) : foldText (asciiLower s) = foldText s := by
+  unfold foldText asciiLower
+  rw [List.map_map]
+  apply List.map_congr_left
+  intro c _
+  simp only [Function.comp]
+  by_cases h : 'A' ≤ c ∧ c ≤ 'Z'
+  · have hc : 65 ≤ c.toNat ∧ c.toNat ≤ 90 := by
+      constructor
+      · exact h.1
+      · exact h.2
+    have hv : (c.toNat + 32).isValidChar := by
+      left; omega
+    have hn : (Char.ofNat (c.toNat + 32)).toNat = c.toNat + 32 := by
+      rw [Char.ofNat, dif_pos hv]; rfl
+    simp only [h, and_self, if_true]
+    unfold foldChar
+    have h1 : ¬ ('A' ≤ Char.ofNat (c.toNat + 32) ∧ Char.ofNat (c.toNat + 32) ≤ 'Z') := by
+      intro hh
+      have : (Char.ofNat (c.toNat + 32)).toNat ≤ 90 := hh.2
+      omega
+    rw [if_neg h1, if_pos h, hn, if_neg (by omega), if_neg (by omega)]
+  · simp only [h, if_false]
+
+/-- the parse depends on the two keyword tokens only through their quoting and their folded text -/
 theorem parsePipeFields_case (f f' e e' : Tok) (rest : List Tok)
-    (hf : f.quoted = f'.quoted ∧ asciiLower f.text = asciiLower f'.text) (hfk : isKeyword f "fields".toList = true)
-    (he : e.quoted = e'.quoted ∧ asciiLower e.text = asciiLower e'.text) (hek : isKeyword e "except".toList = true) :
+    (hf : f.quoted = f'.quoted ∧ foldText f.text = foldText f'.text) (hfk : isKeyword f "fields".toList = true)
+    (he : e.quoted = e'.quoted ∧ foldText e.text = foldText e'.text) (hek : isKeyword e "except".toList = true) :
     parsePipeFields (f :: e :: rest) = parsePipeFields (f' :: e' :: rest) := by
   have hfk' : isKeyword f' "fields".toList = true := by rw [← isKeyword_case f f' _ hf.1 hf.2]; exact hfk
   have hek' : isKeyword e' "except".toList = true := by rw [← isKeyword_case e e' _ he.1 he.2]; exact hek
